@@ -408,7 +408,7 @@ func (w *World) lowerFunc(pkg *Pkg, key string, fd *ast.FuncDecl, fc *FuncContra
 			for _, g := range e.globalWrites {
 				ok := false
 				for _, m := range fc.Modifies {
-					if m == "G$"+g {
+					if m == "G$"+g || m == "G$"+shortKey(g) || m == "G$"+g[strings.LastIndex(g, ".")+1:] {
 						ok = true
 					}
 				}
